@@ -151,6 +151,10 @@ theorem execL_scoped (name prog : Nat) : ∀ (is : List (Instr ℚ)) (pc : Nat),
     | sget slot res f => exact BurstScoped.call n (.sget res f) _ trivial (fun m r _ hr => bindSlot_scoped m slot r _ hr hnext)
     | ret v => exact BurstScoped.ret n v (valBelow_idFree n v hi)
     | raise ty arg => exact BurstScoped.raise n _ (excBelow_int n ty arg)
+    | retev slot =>
+      refine withSlot_scoped n slot _ _ (fun m => BurstScoped.ret m .none trivial) ?_
+      intro m e he
+      exact BurstScoped.ret m (.ev e) he
 
 theorem cont_scoped (progs : Progs ℚ) (h : ProgsClosed progs) (st : SSt) (n : Nat) : BurstScoped IS n (cont progs st) := by
   unfold cont
